@@ -465,13 +465,18 @@ class _Base:
     def observe(self, label, value):
         self.observations.append((label, value))
 
+    def report(self, key, value):
+        """Free-form per-job facts that end up in the evidence file."""
+        self.reports.setdefault(key, []).append(value)
+
 
 class SymCtx(_Base):
     """One exploration (one job): owns the solver and the DFS state."""
     symbolic = True
 
     def __init__(self, solver=None, seed=0, deadline=None, max_paths=None,
-                 crosscheck=None):
+                 crosscheck=None, prop='P'):
+        self.prop = prop
         self.solver = solver or Solver()
         self.rng = random.Random(seed)
         self.seed = seed
@@ -489,6 +494,7 @@ class SymCtx(_Base):
         self.goals = set()
         self.samples = []
         self.validate = []            # (model, observations values) to replay
+        self.reports = {}
         self.exhaustive = False
         self.poison = None
         # per path
@@ -728,11 +734,26 @@ class SymCtx(_Base):
                     if isinstance(self.poison, HarnessError):
                         raise self.poison
                 else:
-                    s.send('(pop)')
-                    CUR = None
-                    raise HarnessError(
-                        'unhandled exception in harness body: %s: %s'
-                        % (type(e).__name__, e)) from e
+                    where = raised_in_repo(e)
+                    if where is None:
+                        s.send('(pop)')
+                        CUR = None
+                        raise HarnessError(
+                            'unhandled exception in harness body: %s: %s'
+                            % (type(e).__name__, e)) from e
+                    # the code under test raised on an input the harness
+                    # considers well-formed: a counterexample of <P>.no_crash
+                    outcome = 'crash'
+                    self.stats['claims'] += 1
+                    cid = '%s.no_crash' % self.prop
+                    self.claim_counts[cid] = self.claim_counts.get(cid, 0) + 1
+                    if s.check() == 'sat':
+                        m, _ = self.model()
+                        self.stats['failed'] += 1
+                        self.counterexamples.append(dict(
+                            claim=cid, sig='%s@%s' % (type(e).__name__, where),
+                            model=m, info=str(e)[:300],
+                            notes=_plain(dict(self.notes))))
             self.stats['paths'] += 1
             if outcome == 'completed':
                 self.stats['completed'] += 1
@@ -754,6 +775,8 @@ class SymCtx(_Base):
                             failed_claims=list(self.path_failed_claims)))
                     if want_val:
                         self.validate.append(dict(model=m, observations=obs))
+            elif outcome == 'crash':
+                self.stats['crashed'] = self.stats.get('crashed', 0) + 1
             elif outcome == 'UnwindCut':
                 self.stats['cut_unwinding'] += 1
             elif outcome == 'ForeignCut':
@@ -807,6 +830,7 @@ class ConcreteCtx(_Base):
         self.assume_failed = False
         self.poison = None
         self.claim_counts = {}
+        self.reports = {}
 
     def _name(self, label):
         n = self.counters.get(label, 0)
@@ -870,7 +894,32 @@ def run_concrete(body, cfg, model, target_claim=None, stop_on_fail=True):
         outcome = 'reproduced'
     except PathControl as e:
         outcome = type(e).__name__
+    except Exception as e:
+        where = raised_in_repo(e)
+        if where is None:
+            raise
+        ctx.failed.append(dict(
+            claim='%s.no_crash' % (target_claim or 'P.').split('.')[0],
+            sig='%s@%s' % (type(e).__name__, where), info=str(e)[:300],
+            notes=_plain(dict(ctx.notes))))
+        outcome = 'reproduced' if (target_claim or '').endswith('.no_crash') \
+            else 'crash'
     return ctx, outcome
+
+
+def raised_in_repo(err):
+    """'file.py:function' of the innermost frame when the exception was raised
+    by code of the repository under test (not by the harness), else None."""
+    import os
+    repo = os.environ.get('VERIF_REPO', '/repo') + '/'
+    tb = err.__traceback__
+    last = None
+    while tb is not None:
+        last = tb.tb_frame.f_code
+        tb = tb.tb_next
+    if last is not None and last.co_filename.startswith(repo):
+        return '%s:%s' % (os.path.basename(last.co_filename), last.co_name)
+    return None
 
 
 # --------------------------------------------------------------------------
